@@ -209,7 +209,10 @@ def rule_d(prog, rep):
     problems = []
 
     def plus_one(e, pred):
-        return e.get('k') == 'binary' and e['op'] == 'Add' and e['r'].get('k') == 'lit' and e['r']['v']['v'] == 1 and pred(e['l'])
+        if e.get('k') != 'binary' or e['op'] != 'Add':
+            return False
+        return (e['r'].get('k') == 'lit' and e['r']['v']['v'] == 1 and pred(e['l'])) or \
+            (e['l'].get('k') == 'lit' and e['l']['v']['v'] == 1 and pred(e['r']))
 
     def is_local(e, let):
         return let is not None and e.get('k') == 'path' and e.get('res') == 'local' and e.get('id') == let['pat'].get('id')
